@@ -313,16 +313,21 @@ def run_case(ctx, case):
     full = ent.selector.split('.')
     names.append(('.'.join(full[-2:]) if ent.is_method else full[-1]).lower())
   ctx.check(names == sorted(names), 'sections-not-alphabetical', 'sections not grouped alphabetically by innermost name: %r' % names)
-  # parameters sorted within each section
-  cur, block = None, []
-  for l in s.splitlines() + ['# Parameters for END:']:
-    mh = HDR.match(l)
-    if mh:
-      if cur is not None:
-        ctx.check(block == sorted(block), 'parameters-not-sorted', 'section %r lists parameters %r' % (cur, block))
-      cur, block = mh.group(1), []
-    elif cur is not None and not l.startswith('#') and not l.startswith(' ') and ' = ' in l:
-      block.append(l.split(' = ')[0].rsplit('.', 1)[-1])
+  # parameters sorted within each section (statement order as read back by the real parser)
+  try:
+    _, _, _, order = snap.parse_text(s)
+  except Exception:  # pylint: disable=broad-except
+    order = []  # unparseable text is reported by the round-trip oracle below
+  groups = []
+  for (sc, sel, arg) in order:
+    if not arg:
+      continue
+    if groups and groups[-1][0] == (sc, sel):
+      groups[-1][1].append(arg)
+    else:
+      groups.append(((sc, sel), [arg]))
+  for key, args in groups:
+    ctx.check(args == sorted(args), 'parameters-not-sorted', 'section %r lists parameters %r' % (key, args))
 
   # (d) markdown keeps every binding line verbatim, in order
   md = gin.config.markdown(s).splitlines()
